@@ -90,14 +90,14 @@ def sqlite_idents(run):
         con.commit()
         con.close()
         sha0 = hashlib.sha256(open(db, 'rb').read()).hexdigest()
-        alphabet = ['T', '2', '_', ';', '-', '"', '(', '*', 'é']
+        alphabet = ['T', '2', '_', ';', '-', '"', '(', '*', 'é', '.', ',', '/', ':', '$']
         idents = set([''])
         for n in (1, 2, 3):
             for tup in itertools.product(alphabet, repeat=n):
                 idents.add(''.join(tup))
-        idents |= {'T2;DROP TABLE T1', 'T2;DELETE FROM T1;--', 'T2 ', 'T2\n', 'T2--', 'T1', 'T2', 'sqlite_master', 'T2;', '"T2"', 'T2)', 'T2,T1', 'T2 WHERE 1=1', 'nosuchtable'}
+        idents |= {'main.T2', 'T2.', '.T2', 'main.sqlite_master', 'T2;DROP TABLE T1', 'T2;DELETE FROM T1;--', 'T2 ', 'T2\n', 'T2--', 'T1', 'T2', 'sqlite_master', 'T2;', '"T2"', 'T2)', 'T2,T1', 'T2 WHERE 1=1', 'nosuchtable'}
         if run.tier == 'quick':
-            idents = set(sorted(idents)[::3]) | {'T2;DROP TABLE T1', 'T2', 'T2\n', 'T2 ', 'T2;', ''}
+            idents = set(sorted(idents)[::7]) | {'T2;DROP TABLE T1', 'T2', 'T2\n', 'T2 ', 'T2;', '', 'main.T2', 'T2.', '.T2', 'T.2', 'T,2', 'T/2', 'T:2', 'T$2', 'T-2', 'T(2', 'T*2', 'T"2'}
         tid = 0
         for ident in sorted(idents):
             for mode in ('join', 'input'):
